@@ -222,7 +222,15 @@ func init() {
 			na := c.MustFn("(*PostingsIterator).nextAtOrAfter")
 			key = fnName(na) + "/loc-read"
 			okLoop := false
-			for _, b := range na.Blocks {
+			// the loop lives where readLocation is called (nextAtOrAfter or a helper of it)
+			var loopBlocks []*ssa.BasicBlock
+			for _, lf := range c.fnsCalling("(*PostingsIterator).readLocation") {
+				loopBlocks = append(loopBlocks, lf.Blocks...)
+			}
+			if len(loopBlocks) == 0 {
+				loopBlocks = na.Blocks
+			}
+			for _, b := range loopBlocks {
 				if !isLoopHeader(b) {
 					continue
 				}
@@ -364,14 +372,23 @@ func init() {
 			for field, flag := range readers {
 				key := fnName(it) + "/creates-" + field
 				ok := false
-				for _, call := range callsOf(it, "newChunkedIntDecoder") {
-					ex := tupleParts(call)[0]
-					if ex == nil {
-						continue
+				// in iterator() itself or in a helper it calls unconditionally on the iterator
+				creators := []*ssa.Function{it}
+				for _, sc := range staticCallees(it) {
+					if c.inRoot(sc) && sc.Blocks != nil && sc.Signature.Recv() != nil && len(callsOf(sc, "newChunkedIntDecoder")) > 0 {
+						creators = append(creators, sc)
 					}
-					for _, ref := range *ex.Referrers() {
-						if st, isSt := ref.(*ssa.Store); isSt && exprSig(st.Addr, 0) == "."+field && flagTrueDominates(it, flag, call.Block()) {
-							ok = true
+				}
+				for _, cf := range creators {
+					for _, call := range callsOf(cf, "newChunkedIntDecoder") {
+						ex := tupleParts(call)[0]
+						if ex == nil {
+							continue
+						}
+						for _, ref := range *ex.Referrers() {
+							if st, isSt := ref.(*ssa.Store); isSt && exprSig(st.Addr, 0) == "."+field && flagTrueDominates(cf, flag, call.Block()) {
+								ok = true
+							}
 						}
 					}
 				}
@@ -668,4 +685,3 @@ func init() {
 		},
 	})
 }
-
